@@ -65,20 +65,46 @@ var targets = []target{
 	{"tree_handler_programmably.go", "validateTreeRoot"},
 	{"node.go", "Node.isDirectlyUnder"},
 	{"node.go", "Node.setBranch"},
+	{"config.go", "newConfig"},
+	{"config.go", "newConfigWithoutEncode"},
+	{"config.go", "WithBranchFormatIntermedialNode"},
+	{"config.go", "WithBranchFormatLastNode"},
+	{"config.go", "WithMassive"},
+	{"config.go", "WithEncodeJSON"},
+	{"config.go", "WithEncodeYAML"},
+	{"config.go", "WithEncodeTOML"},
+	{"config.go", "WithDryRun"},
+	{"config.go", "WithFileExtensions"},
+	{"config.go", "WithTargetDir"},
+	{"config.go", "WithStrictVerify"},
+	{"config.go", "WithNoUseIterOfSimpleOutput"},
 }
+
+// constants of these files are needed too (no function of them is translated)
+var extraFiles = []string{"simple_tree_spreader.go"}
+
+// pointers to these structs are never nil where the translated functions see them, also as results
+var plainPtr = map[string]bool{"config": true}
+
+// the functional-option type: `type Option func(*config)`; a function returning it is translated uncurried,
+// `WithX(args)(c)` as `WithX args c : config`
+const optionType = "Option"
+const optionLean = "(Option (config → config))"
 
 // struct types that are handled through pointers which the translated functions never find nil (a nil
 // dereference is a panic, outside the translation): `*Node` parameters and receivers are plain `Node` values;
 // a `*Node` result is `Option Node`.
-var derefStructs = map[string]bool{"Node": true}
+var derefStructs = map[string]bool{"Node": true, "config": true}
 
 // struct types whose values are translated (all their fields of supported type; others dropped)
 var structFiles = map[string]string{"Parser": "markdown/parser.go", "Markdown": "markdown/markdown.go", "inputFormatError": "node_generator.go", "nodeGenerator": "node_generator.go",
 	"Node": "node.go", "branch": "node.go", "fileConsiderer": "file_considerer.go",
 	"defaultVerifierSimple": "simple_tree_verifier.go", "verifyError": "simple_tree_verifier.go",
-	"WalkerNode": "simple_tree_walker.go"}
+	"WalkerNode": "simple_tree_walker.go", "config": "config.go", "branchFormat": "simple_tree_grower.go"}
 
 type fnInfo struct {
+	optCtor bool         // returns a functional option: translated uncurried
+	lit     *ast.FuncLit // the option's function literal
 	decl    *ast.FuncDecl
 	recv    string // receiver type name ("" for functions)
 	rname   string // receiver variable name
@@ -102,6 +128,7 @@ type tr struct {
 	errs       []string
 	leanNames  map[string]string
 	usesErrorf bool
+	intTypes   map[string]bool // named integer types (`type encode int`)
 }
 
 var leanKeywords = map[string]bool{"at": true, "from": true, "end": true, "then": true, "do": true, "fun": true, "show": true, "have": true, "in": true, "with": true, "match": true, "let": true, "if": true, "else": true, "open": true, "where": true, "by": true, "instance": true, "structure": true, "def": true, "theorem": true, "namespace": true, "section": true, "variable": true, "universe": true, "import": true, "prefix": true, "infix": true, "notation": true, "macro": true, "syntax": true, "deriving": true, "extends": true, "class": true, "inductive": true, "mutual": true, "private": true, "protected": true, "partial": true, "unsafe": true, "local": true, "attribute": true, "export": true, "calc": true, "using": true, "suffices": true, "obtain": true, "return": true, "mut": true, "for": true, "unless": true, "try": true, "catch": true, "finally": true, "Type": true, "Prop": true, "Sort": true, "nil": true}
@@ -135,6 +162,12 @@ func goTypeToLean(t *tr, e ast.Expr) (string, bool) {
 		if _, ok := structFiles[x.Name]; ok {
 			return x.Name, true
 		}
+		if t.intTypes[x.Name] {
+			return "Int", true
+		}
+		if x.Name == optionType {
+			return optionLean, true
+		}
 	case *ast.StarExpr:
 		if id, ok := x.X.(*ast.Ident); ok {
 			if _, ok := structFiles[id.Name]; ok {
@@ -161,7 +194,7 @@ func goTypeToLean(t *tr, e ast.Expr) (string, bool) {
 // resultType: like goTypeToLean, but a pointer to a struct is optional (nil = none) also for derefStructs
 func resultType(t *tr, e ast.Expr) (string, bool) {
 	if st, ok := e.(*ast.StarExpr); ok {
-		if id, ok := st.X.(*ast.Ident); ok && derefStructs[id.Name] {
+		if id, ok := st.X.(*ast.Ident); ok && derefStructs[id.Name] && !plainPtr[id.Name] {
 			return "Option " + id.Name, true
 		}
 	}
@@ -192,8 +225,11 @@ func main() {
 	repo := flag.String("repo", "/repo", "repository root")
 	out := flag.String("out", "", "output Lean file")
 	flag.Parse()
-	t := &tr{fset: token.NewFileSet(), files: map[string]*ast.File{}, consts: map[string]string{}, constType: map[string]string{}, sentinels: map[string]bool{}, sets: map[string][]string{}, slices: map[string][]string{}, structs: map[string][][2]string{}, errStruct: map[string]bool{}, fns: map[string]*fnInfo{}}
+	t := &tr{fset: token.NewFileSet(), files: map[string]*ast.File{}, consts: map[string]string{}, constType: map[string]string{}, sentinels: map[string]bool{}, sets: map[string][]string{}, slices: map[string][]string{}, structs: map[string][][2]string{}, errStruct: map[string]bool{}, fns: map[string]*fnInfo{}, intTypes: map[string]bool{}}
 	need := map[string]bool{}
+	for _, f := range extraFiles {
+		need[f] = true
+	}
 	for _, tg := range targets {
 		need[tg.file] = true
 	}
@@ -212,7 +248,23 @@ func main() {
 			continue
 		}
 		t.files[f] = af
-		t.collectDecls(f, af)
+		// named integer types first: struct fields of such a type are part of the translated state
+		for _, d := range af.Decls {
+			if gd, ok := d.(*ast.GenDecl); ok && gd.Tok == token.TYPE {
+				for _, sp := range gd.Specs {
+					if ts, ok := sp.(*ast.TypeSpec); ok {
+						if bt, ok := ts.Type.(*ast.Ident); ok && (bt.Name == "int" || bt.Name == "uint") {
+							t.intTypes[ts.Name.Name] = true
+						}
+					}
+				}
+			}
+		}
+	}
+	for _, f := range fileNames {
+		if af := t.files[f]; af != nil {
+			t.collectDecls(f, af)
+		}
 	}
 	for _, tg := range targets {
 		key := tg.fn
@@ -278,11 +330,46 @@ func (t *tr) collectDecls(file string, af *ast.File) {
 			if x.Name.Name == "Error" && rt != "" {
 				t.errStruct[rt] = true
 			}
-			t.fns[key] = &fnInfo{decl: x, recv: rt, rname: rn, name: x.Name.Name, file: file}
+			fi := &fnInfo{decl: x, recv: rt, rname: rn, name: x.Name.Name, file: file}
+			if rt == "" && x.Type.Results != nil && len(x.Type.Results.List) == 1 && x.Body != nil && len(x.Body.List) == 1 {
+				if rid, ok := x.Type.Results.List[0].Type.(*ast.Ident); ok && rid.Name == optionType {
+					if rs, ok := x.Body.List[0].(*ast.ReturnStmt); ok && len(rs.Results) == 1 {
+						if fl, ok := rs.Results[0].(*ast.FuncLit); ok && len(fl.Type.Params.List) == 1 && len(fl.Type.Params.List[0].Names) == 1 {
+							fi.optCtor, fi.lit = true, fl
+							fi.recv, fi.rname, fi.mutates = "config", fl.Type.Params.List[0].Names[0].Name, true
+						}
+					}
+				}
+			}
+			t.fns[key] = fi
 		case *ast.GenDecl:
-			for _, sp := range x.Specs {
+			iotaBlock := false
+			for si, sp := range x.Specs {
 				switch s := sp.(type) {
 				case *ast.ValueSpec:
+					// a constant block counting with iota: `c0 T = iota; c1; c2 …`
+					if x.Tok == token.CONST && len(s.Names) == 1 {
+						if len(s.Values) == 1 {
+							if idt, ok := s.Values[0].(*ast.Ident); ok && idt.Name == "iota" {
+								iotaBlock = true
+							} else {
+								iotaBlock = false
+							}
+						}
+						if iotaBlock && (len(s.Values) == 0 || len(s.Values) == 1) {
+							if _, isIota := func() (int, bool) {
+								if len(s.Values) == 0 {
+									return 0, true
+								}
+								idt, ok := s.Values[0].(*ast.Ident)
+								return 0, ok && idt.Name == "iota"
+							}(); isIota {
+								t.consts[s.Names[0].Name] = strconv.Itoa(si)
+								t.constType[s.Names[0].Name] = "Int"
+								continue
+							}
+						}
+					}
 					for i, n := range s.Names {
 						if i >= len(s.Values) {
 							continue
@@ -328,6 +415,9 @@ func (t *tr) collectDecls(file string, af *ast.File) {
 						}
 					}
 				case *ast.TypeSpec:
+					if bt, ok := s.Type.(*ast.Ident); ok && (bt.Name == "int" || bt.Name == "uint") {
+						t.intTypes[s.Name.Name] = true
+					}
 					if st, ok := s.Type.(*ast.StructType); ok {
 						if structFiles[s.Name.Name] == file {
 							var fields [][2]string
@@ -358,7 +448,7 @@ func (t *tr) computeMutates() {
 	for changed {
 		changed = false
 		for _, f := range t.fns {
-			if f.mutates || f.recv == "" || f.decl.Body == nil {
+			if f.mutates || f.recv == "" || f.decl.Body == nil || f.optCtor {
 				continue
 			}
 			m := false
@@ -405,14 +495,16 @@ func (t *tr) computeMutates() {
 // ---------- expressions ----------
 
 func (sc *scope) clone() *scope {
-	return &scope{fn: sc.fn, vars: copyMap(sc.vars), inLoop: sc.inLoop, state: sc.state}
+	return &scope{fn: sc.fn, vars: copyMap(sc.vars), inLoop: sc.inLoop, state: sc.state, opaque: sc.opaque, funcVars: sc.funcVars}
 }
 
 type scope struct {
-	fn     *fnInfo
-	vars   map[string]bool // declared in the function so far (any block)
-	inLoop bool
-	state  []string // loop state variables
+	opaque   map[string]bool // identifiers of types outside the translation (context.Context): statements mentioning them are dropped
+	funcVars map[string]bool // variables holding a functional option
+	fn       *fnInfo
+	vars     map[string]bool // declared in the function so far (any block)
+	inLoop   bool
+	state    []string // loop state variables
 }
 
 func (t *tr) callName(sc *scope, fun ast.Expr) (kind, name string) {
@@ -489,6 +581,64 @@ func nilChecked(f *fnInfo) map[string]bool {
 		return true
 	})
 	return r
+}
+
+// isOptionSlice: the expression is a parameter of type []Option
+func isOptionSlice(f *fnInfo, e ast.Expr) bool {
+	idt, ok := e.(*ast.Ident)
+	if !ok {
+		return false
+	}
+	for _, p := range f.decl.Type.Params.List {
+		if at, ok := p.Type.(*ast.ArrayType); ok {
+			if el, ok := at.Elt.(*ast.Ident); ok && el.Name == optionType {
+				for _, n := range p.Names {
+					if n.Name == idt.Name {
+						return true
+					}
+				}
+			}
+		}
+	}
+	return false
+}
+
+// mentionsOpaque: the statement uses an identifier whose type is outside the translation, or assigns to a
+// struct field that is not part of the translated state
+func (t *tr) mentionsOpaque(sc *scope, s ast.Stmt) bool {
+	found := false
+	ast.Inspect(s, func(n ast.Node) bool {
+		switch x := n.(type) {
+		case *ast.Ident:
+			if sc.opaque[x.Name] {
+				found = true
+			}
+		case *ast.AssignStmt:
+			for _, l := range x.Lhs {
+				if se, ok := l.(*ast.SelectorExpr); ok {
+					if base, ok := se.X.(*ast.Ident); ok {
+						owner := ""
+						if sc.fn.rname == base.Name {
+							owner = sc.fn.recv
+						}
+						if fields, ok := t.structs[owner]; ok && owner != "" {
+							has := false
+							for _, f := range fields {
+								if f[0] == se.Sel.Name {
+									has = true
+								}
+							}
+							if !has {
+								found = true
+							}
+						}
+					}
+				}
+			}
+		}
+		return true
+	})
+	return found
 }
 
 // paramStruct: the struct type of a parameter declared as T or *T
@@ -624,6 +774,11 @@ func (t *tr) expr(sc *scope, e ast.Expr) string {
 		if idt, ok := x.Type.(*ast.Ident); ok && t.errStruct[idt.Name] {
 			return t.composite(sc, x)
 		}
+		if idt, ok := x.Type.(*ast.Ident); ok {
+			if _, ok := t.structs[idt.Name]; ok {
+				return t.compositeV(sc, x, true)
+			}
+		}
 		return t.fail(x.Pos(), "composite literal by value")
 	case *ast.CallExpr:
 		kind, name := t.callName(sc, x.Fun)
@@ -685,7 +840,23 @@ func (t *tr) expr(sc *scope, e ast.Expr) string {
 	return t.fail(e.Pos(), "expression %T", e)
 }
 
+func (t *tr) zeroStruct(name string) string {
+	var a []string
+	for _, f := range t.structs[name] {
+		v := zeroOf(f[1])
+		if _, isStruct := t.structs[f[1]]; isStruct {
+			v = t.zeroStruct(f[1])
+		}
+		a = append(a, id(f[0])+" := "+v)
+	}
+	return "({ " + strings.Join(a, ", ") + " } : " + name + ")"
+}
+
 func (t *tr) composite(sc *scope, cl *ast.CompositeLit) string {
+	return t.compositeV(sc, cl, false)
+}
+
+func (t *tr) compositeV(sc *scope, cl *ast.CompositeLit, byValue bool) string {
 	idt, ok := cl.Type.(*ast.Ident)
 	if !ok {
 		return t.fail(cl.Pos(), "composite literal type")
@@ -718,8 +889,14 @@ func (t *tr) composite(sc *scope, cl *ast.CompositeLit) string {
 		v, ok := vals[f[0]]
 		if !ok {
 			v = zeroOf(f[1])
+			if _, isStruct := t.structs[f[1]]; isStruct {
+				v = t.zeroStruct(f[1])
+			}
 		}
 		a = append(a, id(f[0])+" := "+v)
+	}
+	if byValue || derefStructs[idt.Name] {
+		return "({ " + strings.Join(a, ", ") + " } : " + idt.Name + ")"
 	}
 	return "(some ({ " + strings.Join(a, ", ") + " } : " + idt.Name + "))"
 }
@@ -805,6 +982,15 @@ func (t *tr) assignedVars(sc *scope, stmts []ast.Stmt, acc map[string]bool, decl
 		case *ast.IncDecStmt:
 			if lv, ok := x.X.(*ast.Ident); ok && !declared[lv.Name] {
 				acc[lv.Name] = true
+			}
+		case *ast.ExprStmt:
+			// opt(c) assigns c (any call of a local variable with one identifier argument is taken as such)
+			if ce, ok := x.X.(*ast.CallExpr); ok && len(ce.Args) == 1 {
+				if fv, ok := ce.Fun.(*ast.Ident); ok && (declared[fv.Name] || (sc != nil && sc.funcVars[fv.Name])) {
+					if arg, ok := ce.Args[0].(*ast.Ident); ok && !declared[arg.Name] {
+						acc[arg.Name] = true
+					}
+				}
 			}
 		case *ast.DeclStmt:
 			if gd, ok := x.Decl.(*ast.GenDecl); ok {
@@ -924,6 +1110,9 @@ func unpack(names []string, from string, ind string) string {
 }
 
 func (t *tr) retExpr(sc *scope, vals []string) string {
+	if sc.fn.optCtor {
+		return id(sc.fn.rname) // a functional option returns the configuration it changed
+	}
 	var r string
 	switch len(vals) {
 	case 0:
@@ -945,16 +1134,29 @@ func (t *tr) block(sc *scope, stmts []ast.Stmt, ind string) string {
 		if sc.inLoop {
 			return ind + "Go.Ctl.next " + tuple(sc.state) + "\n"
 		}
-		if sc.fn.decl.Type.Results == nil || len(sc.fn.decl.Type.Results.List) == 0 {
+		if sc.fn.optCtor || sc.fn.decl.Type.Results == nil || len(sc.fn.decl.Type.Results.List) == 0 {
 			return ind + t.retExpr(sc, nil) + "\n" // the end of a function without results
 		}
 		return ind + t.fail(sc.fn.decl.End(), "control reaches the end of %s without a return", sc.fn.name) + "\n"
 	}
 	s, rest := stmts[0], stmts[1:]
+	if len(sc.opaque) > 0 || sc.fn.optCtor {
+		if t.mentionsOpaque(sc, s) {
+			return t.block(sc, rest, ind) // not part of the translated state (e.g. the context of WithMassive)
+		}
+	}
 	switch x := s.(type) {
 	case *ast.ExprStmt:
 		if isSyncCall(x.X) {
 			return t.block(sc, rest, ind)
+		}
+		// opt(c): applying a functional option to the configuration
+		if ce, ok := x.X.(*ast.CallExpr); ok && len(ce.Args) == 1 {
+			if fv, ok := ce.Fun.(*ast.Ident); ok && sc.funcVars[fv.Name] {
+				if arg, ok := ce.Args[0].(*ast.Ident); ok {
+					return ind + "let " + id(arg.Name) + " := " + id(fv.Name) + " " + id(arg.Name) + "\n" + t.block(sc, rest, ind)
+				}
+			}
 		}
 		return ind + t.fail(x.Pos(), "expression statement") + "\n"
 	case *ast.DeferStmt:
@@ -1004,7 +1206,7 @@ func (t *tr) block(sc *scope, stmts []ast.Stmt, ind string) string {
 				rl := sc.fn.decl.Type.Results.List
 				if i < len(rl) {
 					if st, ok := rl[i].Type.(*ast.StarExpr); ok {
-						if sid, ok := st.X.(*ast.Ident); ok && derefStructs[sid.Name] {
+						if sid, ok := st.X.(*ast.Ident); ok && derefStructs[sid.Name] && !plainPtr[sid.Name] {
 							v = "(some " + v + ")"
 						}
 					}
@@ -1081,7 +1283,7 @@ func (t *tr) block(sc *scope, stmts []ast.Stmt, ind string) string {
 		}
 		if be, ok := x.Cond.(*ast.BinaryExpr); ok && be.Op == token.EQL && x.Init == nil && x.Else == nil && leaves(x.Body.List) {
 			if px, ok := be.X.(*ast.Ident); ok {
-				if ny, ok := be.Y.(*ast.Ident); ok && ny.Name == "nil" && nilChecked(sc.fn)[px.Name] {
+				if ny, ok := be.Y.(*ast.Ident); ok && ny.Name == "nil" && (nilChecked(sc.fn)[px.Name] || sc.funcVars[px.Name]) {
 					return ind + "match " + id(px.Name) + " with\n" + ind + "| none =>\n" + t.block(sc.clone(), x.Body.List, ind+"  ") +
 						ind + "| some " + id(px.Name) + " =>\n" + t.block(sc, rest, ind+"  ")
 				}
@@ -1108,7 +1310,7 @@ func (t *tr) block(sc *scope, stmts []ast.Stmt, ind string) string {
 			if len(vs) == 0 {
 				return pre + t.block(sc, rest, ind)
 			}
-			sub := &scope{fn: sc.fn, vars: sc.vars}
+			sub := &scope{fn: sc.fn, vars: sc.vars, opaque: sc.opaque, funcVars: sc.funcVars}
 			a := t.assignsOnly(sub, body, ind+"    ") + ind + "    " + tuple(vs) + "\n"
 			b := t.assignsOnly(sub, els, ind+"    ") + ind + "    " + tuple(vs) + "\n"
 			return pre + ind + "let " + tuple(vs) + " :=\n" + ind + "  if " + cond + " then\n" + a + ind + "  else\n" + b + t.block(sc, rest, ind)
@@ -1165,7 +1367,10 @@ func (t *tr) block(sc *scope, stmts []ast.Stmt, ind string) string {
 		if len(st) == 0 {
 			st = []string{"unit_"}
 		}
-		sub := &scope{fn: sc.fn, vars: copyMap(sc.vars), inLoop: true, state: st}
+		sub := &scope{fn: sc.fn, vars: copyMap(sc.vars), inLoop: true, state: st, opaque: sc.opaque, funcVars: copyMap(sc.funcVars)}
+		if isOptionSlice(sc.fn, x.X) {
+			sub.funcVars[v.Name] = true
+		}
 		sub.vars[v.Name] = true
 		var b strings.Builder
 		init := tuple(st)
@@ -1524,14 +1729,14 @@ func (t *tr) render() string {
 
 func (t *tr) function(f *fnInfo) string {
 	var b strings.Builder
-	sc := &scope{fn: f, vars: map[string]bool{}}
+	sc := &scope{fn: f, vars: map[string]bool{}, opaque: map[string]bool{}, funcVars: map[string]bool{}}
 	name := id(f.name)
-	if f.recv != "" {
+	if f.recv != "" && !f.optCtor {
 		name = f.recv + "." + id(f.name)
 	}
 	b.WriteString(fmt.Sprintf("/-- %s: `%s` -/\n", f.file, strings.TrimSuffix(name, "_")))
 	b.WriteString("def " + name)
-	if f.recv != "" {
+	if f.recv != "" && !f.optCtor {
 		rn := f.rname
 		if rn == "" {
 			rn = "recv_"
@@ -1544,6 +1749,15 @@ func (t *tr) function(f *fnInfo) string {
 	for _, p := range f.decl.Type.Params.List {
 		lt, ok := goTypeToLean(t, p.Type)
 		if !ok {
+			if se, isSel := p.Type.(*ast.SelectorExpr); isSel {
+				if pk, isId := se.X.(*ast.Ident); isId && pk.Name == "context" && se.Sel.Name == "Context" {
+					// the context is not part of the translated state: the parameter and what mentions it are dropped
+					for _, n := range p.Names {
+						sc.opaque[n.Name] = true
+					}
+					continue
+				}
+			}
 			lt = t.fail(p.Pos(), "parameter type")
 		}
 		for _, n := range p.Names {
@@ -1558,7 +1772,7 @@ func (t *tr) function(f *fnInfo) string {
 		}
 	}
 	var rts []string
-	if f.decl.Type.Results != nil {
+	if f.decl.Type.Results != nil && !f.optCtor {
 		for _, r := range f.decl.Type.Results.List {
 			lt, ok := resultType(t, r.Type)
 			if !ok {
@@ -1584,6 +1798,12 @@ func (t *tr) function(f *fnInfo) string {
 			rt = "(" + rt + ")"
 		}
 		rt = f.recv + " × " + rt
+	}
+	if f.optCtor {
+		b.WriteString(" (" + id(f.rname) + " : config) : config :=\n")
+		sc.vars[f.rname] = true
+		b.WriteString(t.block(sc, f.lit.Body.List, "  "))
+		return b.String()
 	}
 	b.WriteString(" : " + rt + " :=\n")
 	b.WriteString(t.block(sc, f.decl.Body.List, "  "))
